@@ -255,7 +255,7 @@ func panicClass(p string) string {
 // buildFaultCases runs the Fault specification and builds the shared malformed/truncated corpus.
 // onlyBig restricts it to single rewrites of size-like fields with large value classes (no truncation): the C14 corpus.
 func buildFaultCases(r *core.Run, rng *rand.Rand, onlyBig bool) (cases []faultCase, info map[string]interface{}, okAll bool) {
-	r.Rule = "TLC checks the input-grammar/fault model Fault: the guarded reader design satisfies NoOOB/NoStall/NoBlowup/Returns for every malformation plan (<= MaxMal value classes on field roles magic/size/count/ucount/offset/type/data) x truncation (before / +1 / last byte of a field, or none) x fault kind (EOF, non-EOF error); the deviations `unchecked` and `trusting` violate them. Every emitted plan is applied to the field maps of generated files in every container and run on every corresponding entry point; additionally every truncation point 0..len of the unmutated generated files, seeded cuts of the repository samples and seeded byte-level mutations"
+	r.Rule = "TLC checks the input-grammar/fault model Fault: the guarded reader design satisfies NoOOB/NoStall/NoBlowup/Returns for every malformation plan (<= MaxMal value classes on field roles magic/size/count/ucount/offset/type/data) x truncation (before / +1 / last byte of a field, or none) x fault kind (EOF, non-EOF error); the deviations `unchecked` and `trusting` violate them. Every emitted plan is applied to the field maps of generated files in every container and run on every corresponding entry point; additionally every truncation point 0..len of the unmutated generated files and of XMP packets, seeded cuts of the repository samples, seeded byte-level mutations, XMP packets with boundary numbers, and every case of the cost model Scale (truthful files that are large by repetition, by one long token, or by repeated structures with overstating counts; the 64-fold files truncated at every byte)"
 	t, err := core.RunTLC(core.TLCOpts{Module: "MC_Fault", Cfg: "Fault.guarded.cfg", Workers: 4, Timeout: 10 * time.Minute, Consts: map[string]string{"MaxMal": map[bool]string{false: "1", true: "2"}[r.Tier == "thorough"]}})
 	defer t.Cleanup()
 	if err != nil || !t.OK {
